@@ -108,6 +108,9 @@ func (d *DefaultFactoryCreator) NewKmsFactory(cfg *config.KafkaConfig) msgstream
 // GetMsgDispatcherClient
 // TODO the client can't include the current msg, however it should include when give the position from the backup tool
 func GetMsgDispatcherClient(creator FactoryCreator, mqConfig config.MQConfig, ttMsgStream bool) (msgdispatcher.Client, error) {
+	if c := verifDispatcherClient(mqConfig, ttMsgStream); c != nil {
+		return c, nil
+	}
 	warpFactory, err := GetStreamFactory(creator, mqConfig, ttMsgStream)
 	if err != nil {
 		return nil, err
